@@ -134,6 +134,20 @@ func (r *Runner) oblige(st *State, kind, label string, goal Term, pos token.Pos)
 		return
 	}
 	if goal.S == "true" {
+		// contract-level obligations that fold to true are still recorded (discharged syntactically),
+		// so that they are part of the baseline and a change that makes them non-trivial is noticed
+		switch kind {
+		case "post", "pre", "cs", "inv-init", "inv-step", "stable", "lockinv", "decr", "signal", "lostwakeup":
+			n := r.curName + "#" + kind
+			if label != "" {
+				n += "[" + label + "]"
+			}
+			o := &Oblig{Name: n, Kind: kind, Fn: r.curName, Goal: goal, Expect: "unsat", Status: "discharged", Solver: "trivial", FnObj: r.curFn, Spec: r.curSpec}
+			if r.curSpec != nil {
+				o.Props = r.curSpec.Props
+			}
+			r.obligs = append(r.obligs, o)
+		}
 		return
 	}
 	name := r.curName + "#" + kind
